@@ -41,6 +41,8 @@ def ev? (t : String) : Option Ev :=
 structure St where
   cfg : Cfg := {}
   sc : Scripts := []
+  deps : Option (List Nat) := none   -- the dependencies the task was stored with (first execution of the case)
+  done : Bool := false               -- the task was executed successfully and removed from the table
 
 def parseCfg (toks : List String) : Option St := do
   let reps := ((kv? toks "reps").bind nat?).getD 1
@@ -81,6 +83,9 @@ def step (s : St) (kind : String) (args impl : List String) : Option (St × Step
   | ["exec", dt] => do
     let deps ← ((kv? [dt] "deps").map list?)
     let deps ← deps.mapM dig?
+    -- the task is stored once; retries run the stored task
+    let deps := s.deps.getD deps
+    if s.done then pure (s, { obs := ["gone", "trace=-"], branch := "exec.gone" }) else
     let r := exec s.cfg ⟨deps⟩ s.sc
     let obs := [if r.ok then "ok" else "err", "trace=" ++ listTok (r.trace.map evTok)]
     let implTr := ((kv? impl "trace").map list?).getD []
@@ -91,7 +96,7 @@ def step (s : St) (kind : String) (args impl : List String) : Option (St × Step
       else if r.trace.any (·.ep == .put) then (if r.ok then "exec.put.ok" else "exec.put.fail")
       else if r.trace.length = 2 ∧ deps ≠ [] then "exec.origin.fail"
       else if r.trace.any (fun e => e.resp == .accepted) then "exec.rep.fail.202" else "exec.rep.fail"
-    pure ({ s with sc := r.scripts }, { obs, branch := br, propfails := pf })
+    pure ({ s with sc := r.scripts, deps := some deps, done := r.ok }, { obs, branch := br, propfails := pf })
   | _ => none
 
 def machine : Machine := { σ := St, name := "tagrepl", init := parseCfg, step := step }
